@@ -13,6 +13,8 @@ TRUSTED = [
     "Coq 8.16.1 kernel (coqc, full .vo build); vm_compute over the finite space farmer kind x clean_up x "
     "allow_incomplete on the stage programs regenerated from cropping.py (GenStages) -- a proof by computation on a "
     "finite domain stated in the theorem",
+    "translator gen_harvest.py: whether the except branch of save_full_ds / save_full_df re-raises a failed write "
+    "(Bridge/BridgeHarvest.v; C12_save_error_raises)",
     "translator gen_stages.py: classifies every statement of reap_combos / reap_combos_to_ds / reap_runner / "
     "reap_harvest / reap_samples / reap by shape (fail closed) into an ordered stage list; gen_reap.py: clean-up rule",
     "which stages can raise is a modelling decision (check-ready, load-info, result loading, dataset construction, "
@@ -155,9 +157,9 @@ def run(tier, seed):
     c = core.Check("C12", tier, seed)
     gen_st = core.regen()
     b = core.build(PROP_FILE)
-    c.cov["translator"] = {k: v for k, v in gen_st.items() if k in ("GenStages", "GenReap")}
+    c.cov["translator"] = {k: v for k, v in gen_st.items() if k in ("GenStages", "GenReap", "GenHarvest")}
     c.cov["build"] = {"ok": b["ok"], "failed_file": b["failed_file"], "wall_s": round(b.get("wall_s", 0), 1)}
-    for k in ("GenStages", "GenReap"):
+    for k in ("GenStages", "GenReap", "GenHarvest"):
         if k in gen_st and not gen_st[k]["ok"]:
             c.obligation_broken(f"translator {k}", gen_st[k]["detail"])
     if not b["ok"]:
